@@ -153,10 +153,10 @@ def b_mono(ctx):
     import numpy as np
     import pandas as pd
     from contracts.c04 import insertions, classify
-    seqs = [[100, -200, 100, -250, 200, 0, 200, -200], [300, 0, 240, 60, 180, 120], [150, -250, 250, -100, 200, -300]]
+    seqs = [[100, -200, 100, -250, 200, 0, 200, -200], [300, 0, 240, 60, 180, 120], [150, -250, 250, -100, 200, -300], [200, 600, 1000, 60, 1500], [-143, 150, -132, -9, 288]]
     if ctx.tier == 'thorough':
         seqs += [[100, 300, -300, 200, -100, 250, -250], [250, -50, 150, -250, 50, -150]]
-    ctx.bound = f"{len(seqs)} load sequences; every single insertion of a non-reversal sample; load scales 1, 1.1, 1.5, 2; R_z 25 -> 250; P_A 2.3e-1 -> 1e-3 -> 7.2e-5 -> 1e-5"
+    ctx.bound = f"{len(seqs)} load sequences; every single insertion of a non-reversal sample; values held for 2 / 3 / 5 samples; load scales 1, 1.1, 1.5, 2; R_z 25 -> 250; P_A 2.3e-1 -> 1e-3 -> 7.2e-5 -> 1e-5"
     ctx.rule = "every comparison of two assessments is one non-trivial case"
     tasks = []
     for si, seq in enumerate(seqs):
@@ -191,6 +191,21 @@ def b_mono(ctx):
                     # lifetimes are reported in cycles of the counted hystereses: the number of hystereses per pass is the same, so the value must agree
                     if bool(val(got, keys[1])) != bool(val(ref, keys[1])) or abs(a - b) > 1e-6 * max(abs(a), abs(b), 1):
                         ctx.fail(f'C10:refinement:{fam}', f'{fam}: inserting {v} at {pos} into {seq} changes the lifetime {b} -> {a}', {'sequence': seq, 'pos': pos, 'value': v})
+            # repeated values: every value held for 2 / 3 samples, the first / the last value held for 3 and 5 samples (added after seed C10-b, which
+            # stepped back over a trailing run of equal values only once)
+            reps = [('every value twice', [v for v in seq for _ in range(2)]), ('every value three times', [v for v in seq for _ in range(3)]),
+                    ('first value three times', [seq[0]] * 2 + seq), ('last value three times', seq + [seq[-1]] * 2), ('last value five times', seq + [seq[-1]] * 4)]
+            for what, y in reps:
+                if classify(y) == 'last-reversal-deferred-to-pass-2' or classify(seq) == 'last-reversal-deferred-to-pass-2':
+                    ctx.count('skipped: C04 junction finding')
+                    continue
+                got = assess(prm, pd.Series(y))
+                ctx.case(True, key=(si, what))
+                for fam, keys in (('P_RAM', KEYS_RAM), ('P_RAJ', KEYS_RAJ)):
+                    a, b = float(val(got, keys[0])), float(val(ref, keys[0]))
+                    # the lifetime is reported in cycles = passes x number of hystereses per pass: repeated values add no hysteresis
+                    if bool(val(got, keys[1])) != bool(val(ref, keys[1])) or not (a == b or abs(a - b) <= 1e-6 * max(abs(a), abs(b), 1)):
+                        ctx.fail(f'C10:repeated-values:{fam}', f'{fam}: {what} in {seq} changes the lifetime {b} -> {a}', {'sequence': seq, 'variant': what})
         elif kind == 'scale':
             prev = ref
             for s_ in (1.1, 1.5, 2.0):
